@@ -10,7 +10,7 @@ import (
 // RFC 9496 section 4.3.1 (Decode), transcribed over integers mod p with the same SQRT_RATIO_M1 symbol
 // (sqrt_ratio_r / sqrt_ratio_ok) that the field layer's SqrtRatioI contract uses.
 //
-//verif:ob prop=C11 name=Ristretto_SetCompressed_vs_RFC9496 mode=int tags=purego,force32bit use=fa native=1
+//verif:ob prop=C11,C19 name=Ristretto_SetCompressed_vs_RFC9496 mode=int tags=purego,force32bit use=fa native=1
 func vh_RistrettoDecode() {
 	if verif.Native() {
 		ristrettoDecodeEndToEnd()
